@@ -4,7 +4,7 @@ cd "$(dirname "$0")/.."
 for d in seeded/*/; do
   n=$(basename $d)
   p=$(python3 -c "import json;print(json.load(open('$d/meta.json'))['property'])")
-  git -C /repo apply "$d/patch.diff" || { echo "$n: patch does not apply"; continue; }
+  git -C /repo apply "$PWD/$d/patch.diff" || { echo "$n: patch does not apply"; continue; }
   timeout 1500 ./check $p > /tmp/seeded_$n.out 2>&1
   rc=$?
   git -C /repo checkout -- .
